@@ -110,3 +110,9 @@ Theorem C10_ou_step_shape :
   (forall theta dt sqdt m s x n d, ou_step1 theta dt sqdt m s x (n + d) == ou_step1 theta dt sqdt m s x n + s * sqdt * d).
 Proof. exact (conj ou_mean_step_between ou_next_affine). Qed.
 Print Assumptions C10_ou_step_shape.
+
+(* NormalActionNoise: every entry is mu + sigma * N *)
+Theorem C10_normal_noise_entries : forall mu sigma n,
+  Forall2 Qeq (normal_call mu sigma n) (map (fun p => fst (fst p) + snd (fst p) * snd p) (combine (combine mu sigma) n)).
+Proof. exact normal_call_spec. Qed.
+Print Assumptions C10_normal_noise_entries.
